@@ -148,6 +148,9 @@ pub fn run_scenario(sc: &Value, dir: &str) -> Vec<Value> {
             let mut b = Server::build()
                 .workers(workers)
                 .max_concurrent_connections(limit)
+                // the other worker / builder options are set AFTER the limit: none of them may disturb it
+                .worker_max_blocking_threads(8)
+                .backlog(512)
                 .shutdown_timeout(1)
                 .disable_signals()
                 .listen("a", la, move || {
